@@ -528,3 +528,10 @@ Proof.
   intros nan a b H1 H2 H3 H. rewrite (agentdef_wire_roundtrip_l nan a H1 H2 H3) in H. apply Ok_inj in H.
   apply py_of_agent_inj in H. subst. auto.
 Qed.
+
+(* two dict keys with the same JSON rendering: json.dumps writes both, json.loads keeps the position of
+   the first and the value of the last, so an entry is lost (such a dict is not [wf]) *)
+Lemma colliding_keys_refuted_l :
+  let v := PDict [(PInt 0, PTuple []); (PStr "0", PInt 7); (PStr "a", PInt 1)] in
+  wf true v = false /\ wire true v = Ok (PDict [(PStr "0", PInt 7); (PStr "a", PInt 1)]).
+Proof. vm_compute. split; reflexivity. Qed.
